@@ -100,6 +100,17 @@ CHECKS = {
             'unsupported codings must not reach the component as different bytes.',
             'Malformed q values count as unspecified; undetectable corruption of lz4 frames (no checksum) is not generated.',
             'DESIGN.md section 2 C17'),
+    'C14': ('hypothesis generated scope pairs / type lists / services judged by an independent reference matcher and '
+            'algebraic laws; generated datagram histories fed through the real read-queue loop into WSDiscovery and '
+            'judged by a reference model of the remote table and of the recent-id memory',
+            'match_scope / filter_services are compared with a matcher written from the statement (own RFC 3986 split, own '
+            'percent decoder, segment-wise prefix) over URIs that differ by case, encoding or one segment; histories of '
+            'Hello / ProbeMatches / ResolveMatches / Bye / Probe / Resolve datagrams (library factory, serialised, parsed '
+            'again) check probe and resolve answers, the per-EPR highest-version record and at-most-once dispatch of '
+            'remembered message ids, including more than 200 distinct ids.',
+            'NetworkingThread is instantiated without sockets; query/fragment parts are not generated; ldap/uuid rules '
+            'are only checked for totality.',
+            'DESIGN.md section 2 C14'),
 }
 
 NOT_YET = {}
